@@ -123,14 +123,35 @@ def impl_exception(exc):
     return None
 
 
+class UnitTimeout(Exception):
+    pass
+
+
+def _alarm(signum, frame):
+    raise UnitTimeout()
+
+
 def _work(item):
     pi, case = item
     part = _PARTS[pi]
     from mc import seams
+    import signal
 
     t0 = time.time()
+    limit = int(getattr(part, "unit_timeout", 0) or os.environ.get("VERIF_UNIT_TIMEOUT") or 900)
+    try:
+        signal.signal(signal.SIGALRM, _alarm)
+        signal.alarm(limit)
+    except (ValueError, AttributeError):
+        pass
     try:
         res = part.run(case)
+    except UnitTimeout:
+        res = Res()
+        res.violation("harness-exception", "work unit %r of part %s did not finish within %d s (hang in the "
+                      "implementation under the harness's environment, or an undersized budget)" % (
+                          case, part.name, limit), case)
+        res.counters["harness_errors"] = 1
     except Exception as e:
         res = Res()
         sig = impl_exception(e)
@@ -140,6 +161,10 @@ def _work(item):
             res.violation("harness-exception", traceback.format_exc(), case)
             res.counters["harness_errors"] = 1
     finally:
+        try:
+            signal.alarm(0)
+        except Exception:
+            pass
         leaked = seams.restore_globals()
     for v in res.violations:
         v.setdefault("unit", case)
